@@ -35,7 +35,7 @@ var families = map[string]genFunc{}
 // regens: translators that need the compiled repository (fitharness regen <name> <out.lean>)
 var regens = map[string]func() (string, error){}
 
-func writeIfChanged(path string, content string) error {
+func writeStringIfChanged(path string, content string) error {
 	old, err := os.ReadFile(path)
 	if err == nil && string(old) == content {
 		return nil
@@ -91,13 +91,20 @@ func main() {
 			os.Exit(2)
 		}
 		f, ok := regens[os.Args[2]]
+		if sc, isSub := subcommands[os.Args[2]]; !ok && isSub { // translators registered as plain sub-commands
+			if err := sc(os.Args[3:]); err != nil {
+				fmt.Fprintln(os.Stderr, err)
+				os.Exit(1)
+			}
+			return
+		}
 		if !ok {
 			fmt.Fprintln(os.Stderr, "unknown regen", os.Args[2])
 			os.Exit(2)
 		}
 		content, err := f()
 		if err == nil {
-			err = writeIfChanged(os.Args[3], content)
+			err = writeStringIfChanged(os.Args[3], content)
 		}
 		if err != nil {
 			fmt.Fprintln(os.Stderr, err)
